@@ -35,7 +35,7 @@ def rule(tier):
 
 def floors(tier):
     return {"evaluations": 550 if tier == "quick" else 8000, "distinct": 550 if tier == "quick" else 6000,
-            "counters": {"open_views_judged": 900, "reloaded_views_judged": 600, "rectangles_merged": 1200, "list_arguments": 100,
+            "counters": {"open_views_judged": 900, "reloaded_views_judged": 600, "rectangles_merged": 1200, "list_arguments": 100, "tables_added_beside_merged": 300,
                          "structural_before": 50, "structural_after": 50, "structural_inside": 30, "multi_tile_tables": 5, "placeholders_checked": 3000}}
 
 
@@ -211,6 +211,21 @@ def simple_case(R, C, rects, as_list, rec, case):
     judge_view(doc2.sheets[0].tables[0], rects, vals, rec, case, fields, "reloaded")
     # the open document after the save
     judge_view(t, rects, vals, rec, case, fields, "open-after-save")
+    # "cells outside are untouched ... the list of merge ranges is exactly the set of merged rectangles": a table added
+    # next to the merged one (open and reloaded document alike) has no merged region at all
+    for label, d in (("open", doc), ("reloaded", doc2)):
+        try:
+            with warnings.catch_warnings():
+                warnings.simplefilter("ignore")
+                nt = d.sheets[0].add_table("Beside", num_rows=R, num_cols=C)
+                mr = list(nt.merge_ranges)
+                kinds = sorted({type(c).__name__ for row in nt.rows() for c in row})
+        except Exception as e:  # noqa: BLE001
+            rec.violation("added_table_raised", {"exc": type(e).__name__, "view": label}, {"msg": str(e)[:200]}, case=case)
+            continue
+        rec.count("tables_added_beside_merged")
+        if mr or kinds != ["EmptyCell"]:
+            rec.violation("merge_ranges", {**fields, "view": label, "table": "added-beside"}, {"got": mr, "cell_kinds": kinds, "want": []}, case=case)
 
 
 def run_exh1(spec, rec):
